@@ -12,6 +12,7 @@ var VerifHarnesses = map[string]func(){
 	"VerifC17RefreshLoop": VerifC17RefreshLoop,
 	"VerifC17FillUpdate3": VerifC17FillUpdate3,
 	"VerifC17RefreshLoopRace": VerifC17RefreshLoopRace,
+	"VerifC17SlowFill": VerifC17SlowFill,
 }
 
 // VerifC17FillUpdate3: three concurrent Update callers on one group (a caller that backs off
@@ -65,7 +66,11 @@ func memberName(n int) string { return "member-of-fill-" + string(rune('0'+n)) }
 // interleaving, starting from a cache that may already hold a member list.
 func VerifC17FillUpdate() {
 	v := &verifFill{running: map[string]int{}, lastOK: map[string]int{}, outcome: map[int]int{}}
-	c := NewFillCache(v.fn, time.Minute)
+	period := time.Minute
+	if zz.NondetBool("short.refresh.period") {
+		period = time.Nanosecond // any timer derived from the refresh period is due at once
+	}
+	c := NewFillCache(v.fn, period)
 	groupsOf := []string{"g0", "g0"}
 	if zz.NondetBool("second.caller.other.group") {
 		groupsOf[1] = "g1"
@@ -176,5 +181,22 @@ func VerifC17RefreshLoopRace() {
 		zz.Reach("both-callers-returned")
 		zz.Assert(started[0] != started[1], "C17.of two concurrent requests for one group's refresh loop exactly one starts a loop")
 		zz.Assert(len(c.refreshLoopGroups) == 1, "C17.one loop is registered after two concurrent requests")
+	}
+}
+
+// VerifC17SlowFill: a cache with a very short refresh period (every timer derived from it is due
+// at once) and a directory call that takes long: a second caller that arrives while the first
+// fill is still running must not start another one.
+func VerifC17SlowFill() {
+	v := &verifFill{running: map[string]int{}, lastOK: map[string]int{}, outcome: map[int]int{}}
+	c := NewFillCache(v.fn, time.Nanosecond)
+	for i := 0; i < 2; i++ {
+		zz.Go("updater", func() { c.Update("g0") })
+	}
+	out := zz.RunSchedule(zz.Bound("c17SlowSteps", 12))
+	zz.Assert(out != "deadlock", "C17.no deadlock with a slow directory call")
+	if out == "done" {
+		zz.Reach("slow-fill-finished")
+		zz.Assert(len(c.inflight) == 0, "C17.no fill is left marked in flight (slow directory call)")
 	}
 }
